@@ -392,7 +392,7 @@ def match_with_padding(exp_tokens, got, nop):
     toks = [(t.data, t.t == "I") for t in exp_tokens]
     n = len(toks)
 
-    def runs(pos):
+    def single(pos):
         out = []
         for kind, pad in (("nop", nop), ("zero", b"\0")):
             k = pos
@@ -401,9 +401,23 @@ def match_with_padding(exp_tokens, got, nop):
                 out.append((kind, k))
         return out
 
+    def runs(pos):
+        """one run, or two runs of different kinds back to back (padding for
+        an uninitialised tail followed by alignment padding, or padding
+        around a retained zero-sized block); yields (kinds, end)"""
+        out = []
+        for kind, k in single(pos):
+            out.append((kind, k))
+            for kind2, k2 in single(k):
+                if kind2 != kind:
+                    out.append((kind + "+" + kind2, k2))
+        return out
+
     def cost(after, kind):
         want = {"code": "nop", "data": "zero"}.get(after)
-        return 0 if want is None or want == kind else 1
+        first = kind.split("+")[0]
+        return (0 if want is None or want == first else 1) + (
+            1 if "+" in kind else 0)
 
     @functools.lru_cache(maxsize=None)
     def go(i, pos):
@@ -503,6 +517,13 @@ def run_align(case):
                             break
                     after = prev or "start"
                 want = {"code": "nop", "data": "zero"}.get(after)
+                kinds = kind.split("+")
+                if len(kinds) == 2:
+                    # second run: only next to a zero-sized block or behind an
+                    # uninitialised tail; judged by the first run only
+                    ctr["two_kind_padding_runs"] = ctr.get(
+                        "two_kind_padding_runs", 0) + 1
+                kind = kinds[0]
                 if want is None or kind == want or not nbytes:
                     continue
                 # a retained zero-sized block at the padding position decides
